@@ -424,6 +424,7 @@ static const char *scripted[] = {
   "P0.2 P1.2 P2.2 P0.2 P1.2 P2.2 F P0.2 P1.2",
   "P0.1 F D0 F R0:-:- P0.1",
   "P0.1 P1.1 F P0.1 F R0:-:- R1:-:- P1.1 F D0",
+  "P0.1 F P1.1 F X P1.1",                       /* tables carry the legacy name NNNNNN.sst, newer data in the log */
   NULL
 };
 
@@ -496,7 +497,7 @@ main(int argc, char **argv) {
   copy = strdup(cfgs);
   for (item = strtok_r(copy, ";", &save); item && !stop_now; item = strtok_r(NULL, ";", &save)) {
     if (!kcfg_parse(&cfg, item)) vh_die("bad cfg");
-    drv_note("cfg %s: every history of length <= %d over %d ops from the empty database and of length <= %d from each of 7 scripted layouts x 8 damage variants", item, len, nalpha, sdepth);
+    drv_note("cfg %s: every history of length <= %d over %d ops from the empty database and of length <= %d from each of 8 scripted layouts x 8 damage variants", item, len, nalpha, sdepth);
     enumerate(len, sdepth);
   }
   free(copy);
